@@ -14,8 +14,10 @@ import (
 )
 
 // cabi engine (C-ABI half of C03).
-//   vh cabi gen   <configs> <casefile> [-draws n] [-models ..]   write cases for cabi/driver.c
-//   vh cabi check <casefile> <resultfile>                        compare the C run with the Go API
+//
+//	vh cabi gen   <configs> <casefile> [-draws n] [-models ..]   write cases for cabi/driver.c
+//	vh cabi check <casefile> <resultfile>                        compare the C run with the Go API
+//
 // Every RunWrapper.tla configuration x model x draw x {states given, initStates with buffer,
 // initStates with NULL states}. The Go-side expectation runs the public Go API on Go-backed arrays.
 func init() { register("cabi", cabiEngine) }
@@ -63,57 +65,68 @@ func cabiGen(args []string) error {
 			for d := 0; d < draws; d++ {
 				caseSeed := seed()*1000003 + int64(ci)*131 + int64(d)*7 + int64(len(name))
 				r := rand.New(rand.NewSource(caseSeed))
-				mc := genCase(r, name, cfg.NP, cfg.NC, cfg.NB, cfg.T)
-				ns := len(mc.States[0])
-				for variant := 0; variant < 3; variant++ { // 0: states given; 1: initStates + buffer; 2: initStates + NULL
-					if variant > 0 && (ci+d+variant)%3 != 0 {
-						continue // a third of the cases also exercise the initStates variants
+				for zeroT := 0; zeroT < 2; zeroT++ {
+					T := cfg.T
+					if zeroT == 1 {
+						// a run over NO timesteps (a caller that only wants the library's initial states): outputs untouched,
+						// states as the Go API leaves them.  Only for kernels whose direct Run accepts an empty series.
+						if !(name == "GR4J" || name == "Lag" || name == "Muskingum") || (ci+d)%4 != 0 {
+							continue
+						}
+						T = 0
 					}
-					init, snull := 0, 0
-					if variant >= 1 {
-						init = 1
-					}
-					if variant == 2 {
-						snull = 1
-					}
-					id++
-					fmt.Fprintf(w, "CASE %d %s %d %d %d %d %d %d %d %d %d %d %d %d\n", id, name, mc.NBlocks, len(mc.Desc.Inputs), mc.T,
-						len(mc.Params), mc.NSets, mc.NCells, ns, cfg.OC, len(mc.Desc.Outputs), cfg.OT, init, snull)
-					for b := range mc.Inputs {
-						for k := range mc.Inputs[b] {
-							for _, v := range mc.Inputs[b][k] {
-								w.WriteString(hexf(v) + " ")
+					mc := genCase(r, name, cfg.NP, cfg.NC, cfg.NB, T)
+					ns := len(mc.States[0])
+					for variant := 0; variant < 3; variant++ { // 0: states given; 1: initStates + buffer; 2: initStates + NULL
+						if variant > 0 && (ci+d+variant)%3 != 0 && zeroT == 0 {
+							continue // a third of the cases also exercise the initStates variants
+						}
+						init, snull := 0, 0
+						if variant >= 1 {
+							init = 1
+						}
+						if variant == 2 {
+							snull = 1
+						}
+						id++
+						fmt.Fprintf(w, "CASE %d %s %d %d %d %d %d %d %d %d %d %d %d %d\n", id, name, mc.NBlocks, len(mc.Desc.Inputs), mc.T,
+							len(mc.Params), mc.NSets, mc.NCells, ns, cfg.OC, len(mc.Desc.Outputs), cfg.OT, init, snull)
+						for b := range mc.Inputs {
+							for k := range mc.Inputs[b] {
+								for _, v := range mc.Inputs[b][k] {
+									w.WriteString(hexf(v) + " ")
+								}
 							}
 						}
-					}
-					w.WriteString("\n")
-					for _, row := range mc.Params {
-						for _, v := range row {
-							w.WriteString(hexf(v) + " ")
-						}
-					}
-					w.WriteString("\n")
-					if snull == 0 {
-						for _, row := range mc.States {
+						w.WriteString("\n")
+						for _, row := range mc.Params {
 							for _, v := range row {
 								w.WriteString(hexf(v) + " ")
 							}
 						}
 						w.WriteString("\n")
-					}
-					no := len(mc.Desc.Outputs)
-					for c := 0; c < cfg.OC; c++ {
-						for k := 0; k < no; k++ {
-							for t := 0; t < cfg.OT; t++ {
-								if c >= mc.NCells || t >= mc.T {
-									w.WriteString(hexf(slackFill) + " ")
-								} else {
-									w.WriteString("0 ")
+						if snull == 0 {
+							for _, row := range mc.States {
+								for _, v := range row {
+									w.WriteString(hexf(v) + " ")
+								}
+							}
+							w.WriteString("\n")
+						}
+						no := len(mc.Desc.Outputs)
+						for c := 0; c < cfg.OC; c++ {
+							for k := 0; k < no; k++ {
+								for t := 0; t < cfg.OT; t++ {
+									if c >= mc.NCells || t >= mc.T {
+										w.WriteString(hexf(slackFill) + " ")
+									} else {
+										w.WriteString("0 ")
+									}
 								}
 							}
 						}
+						w.WriteString("\n")
 					}
-					w.WriteString("\n")
 				}
 			}
 		}
@@ -206,7 +219,7 @@ func cabiCheck(args []string) error {
 			s.NMismatch++
 			if perKey[key] <= 2 && len(s.Mismatches) < 60 {
 				s.Mismatches = append(s.Mismatches, map[string]interface{}{"kind": kind, "model": name, "case_id": idv,
-					"dims": map[string]int{"inputSets": nis, "T": T, "paramSets": nsets, "cells": nc, "states": ns, "outCells": oc, "outT": ot, "initStates": init, "statesNull": snull},
+					"dims":   map[string]int{"inputSets": nis, "T": T, "paramSets": nsets, "cells": nc, "states": ns, "outCells": oc, "outT": ot, "initStates": init, "statesNull": snull},
 					"detail": detail})
 			}
 		}
